@@ -12,7 +12,10 @@ for d in sorted(glob.glob('/verif/seeded/C*')):
     before=m.get('check_result_before_strengthening',{}).get(pid,'')
     summ=m.get('summary','').replace('|','/').replace('\n',' ')
     if len(summ)>170: summ=summ[:167]+'...'
-    rows.append((os.path.basename(d),summ,cr.get('verdict',''),sub,'missed at first; '+m.get('strengthening','') if before.startswith('MISSED') else ''))
+    note=''
+    if cr.get('verdict')!='CAUGHT': note='NOT CAUGHT - '+m.get('strengthening','')
+    elif before.startswith('MISSED'): note='missed at first; '+m.get('strengthening','')
+    rows.append((os.path.basename(d),summ,cr.get('verdict',''),sub,note))
 print('| seed | change (as described by its author) | result | caught by (sub-check / signature) | note |')
 print('|---|---|---|---|---|')
 for r in rows: print('| '+' | '.join(r)+' |')
